@@ -43,6 +43,8 @@ type issueCtx struct {
 }
 
 type c06 struct {
+	// midKey: the signing key the storage rotated to while the current step's requests were being served (nil: none)
+	midKey *world.SignKey
 	w    *world.World
 	o    *kernel.Outcome
 	step int
@@ -152,6 +154,14 @@ func (c *c06) check(desc string, ic issueCtx, tr *world.TokenResponse) {
 		c.viol("id-token", site, "%s: id_token is not a JWT", desc)
 		return
 	}
+	if mk := c.midKey; mk != nil {
+		// the key was rotated while the request was being served: a token signed with the new current key is as good
+		// as one signed with the old one - but everything about one token must belong to one key
+		if hdr["kid"] == mk.KID {
+			ic.key = mk
+			c.o.Probe("signed-with-key-rotated-in-mid-request")
+		}
+	}
 	if hdr["alg"] != string(ic.key.Alg) || hdr["kid"] != ic.key.KID {
 		c.viol("signing-key", site, "%s: id_token header alg/kid %v/%v, the current signing key is %s/%s", desc, hdr["alg"], hdr["kid"], ic.key.Alg, ic.key.KID)
 	}
@@ -229,6 +239,9 @@ func (c *c06) checkJWTAccess(desc, site string, ic issueCtx, tok string, stored 
 	w := c.w
 	hdr := world.JWTHeader(tok)
 	p := world.JWTPayload(tok)
+	if mk := c.midKey; mk != nil && hdr["kid"] == mk.KID {
+		ic.key = mk // rotated while the request was being served (see check)
+	}
 	if hdr["alg"] != string(ic.key.Alg) || hdr["kid"] != ic.key.KID {
 		c.viol("signing-key", site+"/access", "%s: access token header alg/kid %v/%v, current signing key %s/%s", desc, hdr["alg"], hdr["kid"], ic.key.Alg, ic.key.KID)
 	}
@@ -449,16 +462,33 @@ func (c *c06) exchange(ch *kernel.Chooser) string {
 	return desc
 }
 
-func (c *c06) rotate(ch *kernel.Chooser) string {
+// nextKey makes a fresh signing key: of the current key's algorithm, or (other) of another algorithm family, as when
+// a provider migrates from RSA to EC keys or to a stronger hash.
+func (c *c06) nextKey(ch *kernel.Chooser, other bool) *world.SignKey {
 	w := c.w
 	c.keyN++
+	cur := w.Store.CurrentKey().Alg
 	fam := world.AlgFamilies[0]
 	for _, f := range world.AlgFamilies {
-		if f.Alg == w.SigAlg {
+		if f.Alg == cur {
 			fam = f
 		}
 	}
-	k := world.SignKeyFromFixture(world.FixtureKey(fam.Prefix, w.KeyN+c.keyN), fam.Alg, fmt.Sprintf("sig-%d-r%d", w.KeyN, c.keyN))
+	if other {
+		var others []world.AlgFamily
+		for _, f := range world.AlgFamilies {
+			if f.Alg != cur {
+				others = append(others, f)
+			}
+		}
+		fam = others[ch.Int(len(others))]
+	}
+	return world.SignKeyFromFixture(world.FixtureKey(fam.Prefix, w.KeyN+c.keyN), fam.Alg, fmt.Sprintf("sig-%d-r%d-%s", w.KeyN, c.keyN, fam.Alg))
+}
+
+func (c *c06) rotate(ch *kernel.Chooser) string {
+	w := c.w
+	k := c.nextKey(ch, ch.Bool(1, 3))
 	retire := ch.Bool(1, 3)
 	w.Store.RotateKey(k, retire)
 	return fmt.Sprintf("rotate signing key -> %s (retire old=%v)", k.KID, retire)
@@ -466,7 +496,13 @@ func (c *c06) rotate(ch *kernel.Chooser) string {
 
 func RunC06(t *testing.T, spec kernel.Spec) *kernel.Outcome {
 	o := inBubble(t, spec, func(o *kernel.Outcome, tape *kernel.Tape) {
-		w, err := world.NewStd(o, tape, world.StdOptions{Router: spec.Params["router"], AllGrants: true})
+		// keys of every algorithm family may become current during the run: the provider must accept its own tokens
+		var all []string
+		for _, f := range world.AlgFamilies {
+			all = append(all, string(f.Alg))
+		}
+		w, err := world.NewStd(o, tape, world.StdOptions{Router: spec.Params["router"], AllGrants: true, Options: []op.Option{
+			op.WithAccessTokenVerifierOpts(op.WithSupportedAccessTokenSigningAlgorithms(all...)), op.WithIDTokenHintVerifierOpts(op.WithSupportedIDTokenHintSigningAlgorithms(all...))}})
 		if err != nil {
 			o.Infra = "world: " + err.Error()
 			return
@@ -498,6 +534,22 @@ func RunC06(t *testing.T, spec kernel.Spec) *kernel.Outcome {
 					return kind
 				}
 				defer func() { w.Store.Inject = nil }()
+			}
+			c.midKey = nil
+			if i > 0 && ch.Bool(1, 5) {
+				// the storage rotates its signing key while this step's requests are being served: right before the k-th
+				// storage call a new key (often of another algorithm family) becomes current, the old one stays published
+				k, calls, other := ch.Range(1, 30), 0, ch.Bool(2, 3)
+				nk := c.nextKey(ch, other)
+				w.Store.OnCall = func(ctx context.Context, method string) string {
+					if calls++; calls == k {
+						w.Store.RotateKey(nk, false)
+						c.midKey = nk
+						o.Probe("rotation-in-mid-request")
+					}
+					return ""
+				}
+				defer func() { w.Store.OnCall = nil }()
 			}
 			switch x := ch.Int(20); {
 			case x < 6 || i == 0:
